@@ -16,8 +16,14 @@ count 1.  (HEAD reports `x` in `"é" x` at column 6 / offset 5, i.e. bytes, so t
 Whitespace bytes used between tokens: space, tab, LF, CR, CRLF, form feed 0x0C, vertical tab 0x0B -- all of them are accepted by
 the unchanged tokenizer (checked on HEAD); U+00A0 / U+2028 are not and are not used.
 
-Not pinned (incidental): the names of the token types beyond the coarse class (word / digit / quoted / punct), the END token,
-what a word glued to `true` / `false` / `NULL` lexes to (`truex`), symbols starting with `_`.
+The END token ("every token reports the line, column and byte offset at which it really starts"): the tokenizer closes the stream
+with a token of type END and empty text, which the parser uses to report "unexpected end of input".  The end of the input really
+is just past the last character of the source -- after any trailing blanks, line ends (LF / CRLF), blank lines and comments --,
+so an END token must report offset = len(source in bytes), line = 1 + number of LF in the source, column = 1 + bytes after the
+last LF.  Only its position is pinned, and only when the stream carries such a token (check_end).
+
+Not pinned (incidental): the names of the token types beyond the coarse class (word / digit / quoted / punct), whether there is an
+END token at all, what a word glued to `true` / `false` / `NULL` lexes to (`truex`), symbols starting with `_`.
 """
 import itertools
 import json
@@ -124,6 +130,26 @@ def parse_tokens(payload):
     return [t for t in out if t[0] != 'END']
 
 
+def end_tokens(payload):
+    """The END token(s) of a token dump: [(line, column, offset)]."""
+    out = []
+    for x in payload.split('\x1f'):
+        f = x.split('\x1e')
+        if len(f) == 5 and f[0] == 'END':
+            out.append((int(f[2]), int(f[3]), int(f[4])))
+    return out
+
+
+def check_end(src, payload):
+    """None, or (what, expected, observed) when an END token of the stream is not reported just past the last character of src."""
+    tp = true_position(src, len(src))
+    for e in end_tokens(payload):
+        if e != tp:
+            return ('the END token is reported at line %d column %d offset %d, the input really ends at line %d column %d offset %d' % (e + tp),
+                    dict(line=tp[0], column=tp[1], offset=tp[2]), dict(line=e[0], column=e[1], offset=e[2]))
+    return None
+
+
 # ------------------------------------------------------------------ vocabulary and layouts
 KEYWORDS = ['let', 'import', 'include', 'as', 'func', 'select', 'map', 'filter', 'reduce', 'module', 'mod', 'out', 'constraint', 'convert', 'assert', 'fail', 'TRACE',
             'NULL', 'in', 'is', 'not', 'true', 'false', 'self', 'env', 'str', 'int', 'float', 'bool', 'item', 'this']
@@ -141,7 +167,10 @@ for _t in VOCAB:
 # `//`, with a lone CR inside their text -- everything up to the LF is comment)
 SEPS = [' ', '  ', '\t', '\n', '\r\n', '\r', '\x0c', '\x0b', ' \t \r\n ', '\n\n', ' // c\n', '// c\r\n', '//\n', '//\r\n', ' // one\r+ 1\n', '// é✓ 日本\n', ' // "unterminated\n',
         '// a // b\n', '\t// let x = 1;\n\t', '\n// l1\n// l2\n', ' //// \n', '\r\n\r\n', ' \x0c\x0b ', '// \\\n']
-EOF_TAILS = ['', ' ', '\n', '\r\n', '\t', ' // end', '// end', '//', ' // end\n', '// é', '// a\rb', '\x0c', '\x0b']
+EOF_TAILS = ['', ' ', '\n', '\r\n', '\t', ' // end', '// end', '//', ' // end\n', '// é', '// a\rb', '\x0c', '\x0b',
+             # what a text can end in: several blanks, a lone CR, blank lines (LF / CRLF / mixed, with blanks on them), comments with and without their line end
+             '   ', '\r', '\n\n', '\n\n\n', '\r\n\r\n', '\n\r\n', '\r\n\n', ' \n \n ', '\n\t', '\n ', '\t\r\n', '// end\r\n', '// é✓\n', '//\n', '//\r\n', '\n// end', '\n// end\n',
+             '\n\n// end\n\n', ' // a\n// b', ' // a\n// b\n', '\r\n// end\r\n\r\n', '// end\n ', '// end\n\t\n']
 
 
 def glue_safe(a, b):
@@ -195,7 +224,7 @@ def check_tokens(src, toks, starts, res):
         if (g[2], g[3], g[4]) != tp:
             return ('token %r reported at line %d column %d offset %d, really starts at line %d column %d offset %d' % ((t, g[2], g[3], g[4]) + tp),
                     dict(line=tp[0], column=tp[1], offset=tp[2]), dict(line=g[2], column=g[3], offset=g[4]))
-    return None
+    return check_end(src, payload)
 
 
 def viol(name, bound, n, src, what, exp, obs, how='replay driver `tokens` (ucglib::tokenizer::tokenize)'):
@@ -210,7 +239,7 @@ def standin_layout_tokens(tier, seed):
     bound = ('%d seeded random sequences of 1..40 tokens from the full vocabulary (%d tokens: keywords, symbols, integers, %d string literals, every operator), each laid '
              'out twice (A: a random separator between all tokens; B: separators dropped where the reference lexer allows) with %d separators (space, tab, LF, CRLF, CR, '
              'FF, VT, comments incl. multi-byte / lone CR / `//` inside) and %d end-of-text tails; both layouts must give the same (class, fragment) sequence = the tokens '
-             'written, each at its true line / byte column / byte offset' % (n, len(VOCAB), len(STRINGS), len(SEPS), len(EOF_TAILS)))
+             'written, each at its true line / byte column / byte offset, and the END token just past the last character' % (n, len(VOCAB), len(STRINGS), len(SEPS), len(EOF_TAILS)))
     cases, metas = [], []
     for i in range(n):
         k = rnd.randint(1, 40) if i % 3 else rnd.randint(1, 6)
@@ -336,7 +365,7 @@ def standin_true_positions(tier, seed):
     heavy_vocab = ['"é"', '"日本語 ✓"', '"\U0001F600\U0001F600"', '"multi\nline"', '"crlf\r\nline"', '"three\n\nlines\n"', '"tab\there"', '"é\n✓\r\n日"', '"\\n"', '"a\\\nb"', '"\r"', '"// é"',
                    'x', 'foo_bar', 'a-b', '1', '42', '=', ';', '==', '=>', '..', '::', '&&', '||', '%%', '!=', '!~', '+', '/', '{', '}', '(', ')', '[', ']', ',', '.', ':', '|', 'let', 'NULL', 'true']
     bound = ('%d seeded sequences of 1..25 tokens, weighted towards multi-byte and multi-line string literals, separated by tabs / CR / CRLF / LF / FF / VT / comments with '
-             'multi-byte text: every token at its true line, byte column and byte offset' % n)
+             'multi-byte text and followed by one of %d end-of-text tails: every token, the END token included, at its true line, byte column and byte offset' % (n, len(EOF_TAILS)))
     cases, metas = [], []
     for _ in range(n):
         toks = [rnd.choice(heavy_vocab) for _ in range(rnd.randint(1, 25))]
@@ -349,6 +378,8 @@ def standin_true_positions(tier, seed):
                 src += sep
             starts.append(len(src))
             src += t
+        tail = rnd.choice(EOF_TAILS)
+        src += (' ' + tail) if (tail.startswith('/') and toks[-1].endswith('/')) else tail
         cases.append(src)
         metas.append((toks, starts))
     for t in heavy_vocab:
@@ -399,6 +430,9 @@ def standin_operator_munch(tier, seed):
         for g, (line, col, off) in zip(got, [true_position(src, i) for _, _, i in ref_lex(src)]):
             if (g[2], g[3], g[4]) != (line, col, off):
                 return viol('operator_munch', bound, len(cases), src, 'operator %r reported at line %d column %d offset %d, really at line %d column %d offset %d' % (g[1], g[2], g[3], g[4], line, col, off), dict(line=line, column=col, offset=off), dict(line=g[2], column=g[3], offset=g[4]))
+        bad = check_end(src, pl)
+        if bad:
+            return viol('operator_munch', bound, len(cases), src, bad[0], bad[1], bad[2])
     return dict(name='operator_munch', bound=bound, cases=len(cases), status='ok', exhaustive=(tier == 'thorough'))
 
 
@@ -422,10 +456,12 @@ def standin_vocab_pairs(tier, seed):
                     src += (' ' + v) if (v.startswith('/') and s[k - 1].endswith('/')) else v
                 starts.append(len(src))
                 src += t
+            tail = rnd.choice(EOF_TAILS)
+            src += (' ' + tail) if (tail.startswith('/') and s[-1].endswith('/')) else tail
             cases.append(src)
             metas.append((list(s), starts))
     bound = ('%s pairs of tokens from the %d-token vocabulary + %d seeded triples, each written with a random separator and, where the reference lexer reads the glued text as '
-             'the same tokens, without any (%d texts): same tokens, true positions' % ('all %d' % (len(VOCAB) ** 2) if tier == 'thorough' else '1500 sampled', len(VOCAB), 12000 if tier == 'thorough' else 500, len(cases)))
+             'the same tokens, without any, and ended by a random end-of-text tail (%d texts): same tokens, true positions (END token included)' % ('all %d' % (len(VOCAB) ** 2) if tier == 'thorough' else '1500 sampled', len(VOCAB), 12000 if tier == 'thorough' else 500, len(cases)))
     res = C4.run_cases('tokens', cases)
     for src, (toks, starts), r in zip(cases, metas, res):
         bad = check_tokens(src, toks, starts, r)
@@ -483,9 +519,15 @@ def standin_string_literals(tier, seed):
     lits = [(s, v) for s, v in lits if '\x1e' not in s and '\x1f' not in s]
     bound = ('%d fixed + %d seeded string literals of 0..24 pieces over arbitrary Unicode (1-4 byte characters, combining marks, BOM, controls, raw LF / CRLF / tab) with every '
              'escape form (\\n \\r \\t \\" \\\\, backslash + any other character, backslash + newline): the token fragment, and the value written by `out json` through the real '
-             'binary, equal the decoded text' % (len(FIXED_STRINGS), n))
+             'binary, equal the decoded text; each literal also as the last token of a text before an end-of-text tail (END token just past the last character)' % (len(FIXED_STRINGS), n))
     # 1. the token
     cases = ['let v = %s ;' % s for s, _ in lits]
+    # ... and the literal as the LAST token of the text, followed by an end-of-text tail: the END token sits just past the last character
+    end_cases = ['let v = %s%s' % (s, EOF_TAILS[k % len(EOF_TAILS)]) for k, (s, _) in enumerate(lits)]
+    for src, (st, pl) in zip(end_cases, C4.run_cases('tokens', end_cases)):
+        bad = check_end(src, pl) if st == 'OK' else (None if st in ('TIMEOUT', 'CRASH') else ('the text does not tokenise', 'tokens', '%s %s' % (st, pl[:200])))
+        if bad:
+            return viol('string_literals', bound, len(cases), src, bad[0], bad[1], bad[2])
     res = C4.run_cases('tokens', cases)
     for (s, v), src, (st, pl) in zip(lits, cases, res):
         got = parse_tokens(pl) if st == 'OK' else None
@@ -499,7 +541,7 @@ def standin_string_literals(tier, seed):
                         str(after[-1][2:]) if after else 'no `;` token')
     # 2. the value in build output: out json [lit, lit, ...] through the real binary
     work = tempfile.mkdtemp(prefix='verif_c11_')
-    n_cases = len(cases)
+    n_cases = len(cases) + len(end_cases)
     try:
         chunk = 200
         for i in range(0, len(lits), chunk):
@@ -533,4 +575,40 @@ def standin_string_literals(tier, seed):
     return dict(name='string_literals', bound=bound, cases=n_cases, status='ok')
 
 
-STANDINS = [standin_layout_tokens, standin_layout_ast, standin_true_positions, standin_operator_munch, standin_vocab_pairs, standin_string_literals]
+# ------------------------------------------------------------------ (e) the END token: every way a text can end
+END_ATOMS = [' ', '\t', '\n', '\r\n', '\r', '\x0c', '// c', '//', '// é✓ 日', '// "x']
+END_BODIES = ['', 'x', 'let x = 1', 'let x = 1;', '"s"', '"é✓"', '"multi\nline"', '"ends in newline\n"', '42', ';', '1 /', '}', 'a.b', 'let x = 1;\nlet y = "é";\r\nlet z = [1, 2]',
+              '// head\nx', '\n\nx', 'x == y', 'NULL']
+
+
+def standin_end_position(tier, seed):
+    """The END token after every way a text can end: nothing, blanks, LF, CRLF, lone CR, blank lines, comments with / without their line end."""
+    d_all, d_first = (4, 5) if tier == 'thorough' else (3, 4)       # pieces per tail: on every body / on the first two bodies (the empty text and `x`)
+    tails = ['']
+    for k in range(1, d_first + 1):
+        tails += [''.join(t) for t in itertools.product(END_ATOMS, repeat=k)]
+    n_all = sum(len(END_ATOMS) ** k for k in range(0, d_all + 1))    # `tails` is ordered by number of pieces
+    cases = []
+    for i, b in enumerate(END_BODIES):
+        for t in (tails if i < 2 else tails[:n_all]):
+            cases.append(b + ((' ' + t) if (b.endswith('/') and t.startswith('/')) else t))
+    cases += [b + t for b in END_BODIES for t in EOF_TAILS if not (b.endswith('/') and t.startswith('/'))]
+    bound = ('the END token after every way a text can end: %d bodies (empty text, one token of every class, statements with and without `;`, multi-line / multi-byte strings, '
+             'several lines) x every sequence of 0..%d pieces (0..%d on the empty text and on `x`) from {space, tab, LF, CRLF, lone CR, FF, comment, empty comment, multi-byte comment, '
+             'comment with a quote} -- exhaustive -- + every body x the %d end-of-text tails of the layout families (%d texts): END is reported at offset = length of the text in bytes, '
+             'line = 1 + number of LF, column = 1 + bytes after the last LF' % (len(END_BODIES), d_all, d_first, len(EOF_TAILS), len(cases)))
+    res = C4.run_cases_sharded('tokens', cases, 4 if tier == 'thorough' else 2)
+    seen = 0
+    for src, (st, pl) in zip(cases, res):
+        if st in ('TIMEOUT', 'CRASH'):
+            continue
+        if st != 'OK':
+            return viol('end_position', bound, len(cases), src, 'a text made of valid tokens, blanks and comments does not tokenise', 'a token stream', '%s %s' % (st, pl[:200]))
+        seen += len(end_tokens(pl))
+        bad = check_end(src, pl)
+        if bad:
+            return viol('end_position', bound, len(cases), src, bad[0], bad[1], bad[2])
+    return dict(name='end_position', bound=bound, cases=len(cases), status='ok', detail='%d END tokens seen' % seen)
+
+
+STANDINS = [standin_end_position, standin_layout_tokens, standin_layout_ast, standin_true_positions, standin_operator_munch, standin_vocab_pairs, standin_string_literals]
